@@ -832,7 +832,7 @@ def run(ck):
     resp_cases, resp_impl, resp_meta = list(fetch_cases), list(fetch_impl), list(fetch_meta)
     nresp_valid = len(resp_cases)
 
-    def measured(api, ver, data, label):
+    def measured(api, ver, data, label, depth=CL.DEPTH):
         """run one decoder on hostile bytes under the meter; returns the trace (or None when aborted)"""
         op = 0 if api == "msgset" else R.API_OP[api]
         f = (lambda: CL.impl_decode_set(data)) if op == 0 else (lambda: R.impl_decode(op, data, ver))
@@ -869,7 +869,7 @@ def run(ck):
             ck.hist("decode_%s -> %s" % (api, err_name(tr[-1] if (op == 0 or op in (3, 4, 5, 8, 9)) else tr[0])))
             ck.hist("malformed/" + label.split("_")[0] + ("_" + label.split("_")[1] if label.startswith(("mutated", "bomb", "gzip")) and "_" in label else ""))
             if op == 0:
-                set_cases.append(CL.case_decode_set(data, orc))
+                set_cases.append(CL.case_decode_set(data, orc, depth))
                 set_impl.append(tr)
                 set_meta.append(("hostile:" + label, data))
             else:
@@ -934,6 +934,17 @@ def run(ck):
         for _ in range(5):
             nest = CL.raw_set([(199, CL.raw_msg(mg, 1, None, CL.gz(nest), 1))])
         measured("msgset", 0, nest, "gzip_nested5")
+    # ... and 30 deep (thorough: 100 deep) around 60 messages, against the model with a matching nesting budget
+    # (C12_hops_linear_per_depth: the cost of handing messages up carries the depth as a factor; the only bound on the
+    # depth is CPython's recursion limit)
+    deep = 100 if thorough else 30
+    for mg in (0, 1):
+        nest = CL.raw_set([(i, CL.raw_msg(0, 0, None, b"")) for i in range(60)])
+        for _ in range(deep):
+            nest = CL.raw_set([(59, CL.raw_msg(mg, 1, None, CL.gz(nest), 1))])
+        t_deep = measured("msgset", 0, nest, "gzip_nested%d" % deep, depth=deep + 2)
+        if t_deep is None or t_deep[0] != 60 or t_deep[-1] != 0:
+            violation("valid message set not decoded to what was encoded", "%d nested wrappers around 60 messages" % deep, nest)
     # long valid inputs: the bound is linear, not just "small inputs are cheap"
     big = 3 if thorough else 1
     for api in ("produce", "metadata", "offsets", "apiversions", "join"):
@@ -955,7 +966,7 @@ def run(ck):
         "bit errors in the 4-byte size field: never the damaged entry; ChecksumError, ProtocolError (negative), or the entry is taken for a partial trailing message (silent stop / ConsumerFetchSizeTooSmall) (histogram corrupt/size)",
         "bit order: 'burst of at most 32 bits' is proved for positions in the CRC's own order (bytes in stream order, inside a byte the LEAST significant bit first). With the most significant bit of each byte first the same sentence is false (C12_crc_burst_msb_order_refuted; the run replays 0a1ee9d5e0 on the real decoder: coverage.burst_bit_order_witness). In any numbering: single-bit flips and alterations confined to 4 consecutive bytes are always detected",
         "a CRC-valid entry in the middle of a set whose inner key/value lengths overrun the entry raises BufferUnderflowError inside _decode_message and is taken for a partial tail: the rest of the answer is dropped silently (kafkacodec.py:381-396; model identical). Excluded from the statement (no producer writes such an entry); nothing corrupt is delivered",
-        "nested compression: every message is handed up through one generator per nesting level, so decoding costs (messages x depth); depth is bounded only by Python's recursion limit (RecursionError near 320 levels). Measured on the unchanged tree, untraced: 10 KB on the wire = 200 levels around 4000 empty messages -> 2.0 s. Kafka itself allows one level; the run exercises depth <= 5",
+        "nested compression: every message is handed up through one generator pair per nesting level, so decoding costs (messages x depth): C12_hops_linear_per_depth bounds it by depth * (input + all decompressed bytes)/3 for ANY depth and C12_hops_depth_free_bound_refuted shows the depth factor cannot be dropped (the outer levels decompress to a few dozen bytes each). The only bound on the depth is CPython's recursion limit (RecursionError near 320 levels). Measured on the unchanged tree, untraced: 10 KB on the wire = 200 levels around 4000 empty messages -> 2.0 s. Kafka itself allows one level; the run exercises depth 5 and 30 (100 in the thorough tier)",
     ]
     ck.cov["work_monitor"] = {"bounds": {"lines": [LINES_BASE, LINES_PER_BYTE], "tracemalloc_peak": [MEM_BASE, MEM_PER_BYTE], "seconds": [TIME_BASE, TIME_PER_BYTE]},
                               "worst_observed": {k: (round(v, 3) if isinstance(v, float) else v) for k, v in worst.items()},
@@ -1166,7 +1177,7 @@ def run(ck):
         "Model/FetchGrow.v stands for afkak/consumer.py:925-996,1015-1021,1093-1104 and the unlimited-retry path of _handle_fetch_error only (synchronous processor, request_retry_max_attempts = 0, no OffsetOutOfRange, no commits/stop: those are Model/Consumer.v, property C14)",
         "Model/Responses.v (property C05's model of every decode_*) is compared with the implementation on the malformed stream; the C12 theorems about readers and counted loops are generic (any reader consuming >= c bytes) and are not instantiated per decoder",
         "bursts that straddle the boundary between the stored CRC field and the checksummed bytes, and alterations of the offset/size fields of a message-set entry (not covered by the CRC in formats 0 and 1), are outside the theorems; the run records what the implementation does there",
-        "gzip is an oracle (its recorded answers are given to the model); work is bounded relative to input bytes + decompressed bytes; snappy is not installed and not exercised; nesting deeper than the recursion limit is not exercised",
+        "gzip is an oracle (its recorded answers are given to the model); work is bounded relative to input bytes + decompressed bytes, times the nesting depth for the hand-over of messages (C12_hops_linear_per_depth); snappy is not installed and not exercised; nesting beyond CPython's recursion limit (RecursionError) is not exercised",
         "work monitor: sys.settrace line events of files under <repo>/afkak (bound 3x the worst ratio of the unchanged tree), time.perf_counter, tracemalloc peak (memory is monitor-only: no theorem); byte-level work is seen only by the scaling monitor: bytes copied by slicing a counting bytes subclass (bound 4x the unchanged tree) and the wall-time ratio for a 4x larger set (bound 7, linear = 4); copies made without slicing the input (e.g. bytes(data) in a loop) are visible to the time ratio only",
         "extraction: ExtrOcamlBasic only; OCaml 4.13.1 ocamlopt; a sample of the case lines is re-evaluated in Coq by vm_compute",
     ]
